@@ -131,7 +131,7 @@ class TopGen:
     def script(self, name=None, scope=None, inline=False):
         r = self.r
         name = name or self.fresh("Script")
-        g = G(r, maxdepth=2 if self.tier == "quick" else 3, prefix=name + "_", scoped_labels=True)
+        g = G(r, maxdepth=(2 if r.random() < 0.5 else 3) if self.tier == "quick" else 3, prefix=name + "_", scoped_labels=True)
         body = g.body()
         if r.random() < 0.2:
             # a body that ends in a loop left by break: the break returns from the script
@@ -606,7 +606,7 @@ def gen_C10(rnd, n, tier):
             pre = "const K_ONE = 1\nconst K_SUM = BASE + 2\nconst K_ALIAS = K_ONE\nconst K_ALIAS2 = K_ALIAS + K_ONE\n"
         ntext = 0; texts = []
         for j in range(ncmd):
-            name = rnd.choice(["lock", "setvar", "c%d" % j, "giveitem", "end_x", "returnx"])
+            name = rnd.choice(["lock", "setvar", "c%d" % j, "giveitem", "end_x", "returnx", "END", "Return", "End", "GOTO", "Lock"])
             form = rnd.random()
             if form < 0.2: stmts.append(name); want.append("\t" + name)
             elif form < 0.3: stmts.append(name + "()"); want.append("\t" + name)
@@ -710,11 +710,12 @@ def gen_C14(rnd, n, tier):
                     # poryswitch-selected part; switch value is A: an explicitly empty selected case
                     # contributes nothing, a colon case one step, a brace case all its steps
                     kind = rnd.choice(["empty", "colon", "brace", "dup", "num"])
-                    if kind == "dup": src.append("poryswitch(V) { A: walk_left B: walk_right * 2 A { dup_down * 2 face_left } 7: x }"); steps += ["dup_down", "dup_down", "face_left"]; continue   # a repeated case: the later one counts
+                    if kind == "dup": src.append("poryswitch(V) { A: walk_left B: walk_right * 2 A { dup_down * 2 face_left } 7: x }"); steps += ["dup_down", "dup_down", "face_left"]; src.append(rnd.choice(["", ","])); continue   # a repeated case: the later one counts
                     if kind == "num": src.append("poryswitch(N) { 1 { walk_left * 3 } 2 { num_down * 2 } _ { } }"); steps += ["num_down", "num_down"]; continue
                     if kind == "empty": src.append("poryswitch(V) { A {} B { walk_left * 3 } _ { walk_right * 2, delay_16 } }")
                     elif kind == "colon": src.append("poryswitch(V) { B: walk_left A: jump_up _: walk_right }"); steps.append("jump_up")
                     else: src.append("poryswitch(V) { _ { walk_right } A { jump_a jump_b * 2 } }"); steps += ["jump_a", "jump_b", "jump_b"]
+                    if rnd.random() < 0.3: src.append(",")
                     continue
                 if rnd.random() < 0.4:
                     mult, val = rnd.choice([("2", 2), ("1", 1), ("0x3", 3), ("010", 8), ("9999", 9999), ("0", None), ("10000", None), ("-2", None), ("0x", None), ("09", None), ("3", 3),
